@@ -10,6 +10,8 @@ import (
 	"encoding/json"
 	"fmt"
 	dtpb "github.com/google/fhir/go/proto/google/fhir/proto/r4/core/datatypes_go_proto"
+	"google.golang.org/protobuf/reflect/protoreflect"
+	"google.golang.org/protobuf/types/known/anypb"
 	"os"
 	"os/exec"
 	"path/filepath"
@@ -708,7 +710,11 @@ func c04GenKeep(s Src) c04KeepCase {
 			}
 		})
 		if len(paths) > 0 {
-			c.Path = pickOne(s, paths) + pickOne(s, []string{"", "", "", ".where(true)", ".tail()", ".select($this)", ".take(5)", ".children()"})
+			c.Path = pickOne(s, paths) + pickOne(s, []string{"", "", "", ".where(true)", ".tail()", ".select($this)", ".take(5)", ".children()", " is Element", ".exists()", ".empty()", ".count()", ".first() is " + typ, ".select($this is Element)", ".toString()"})
+		}
+		if s.Prob(10) {
+			// results that are, or are cut from, the root collection itself
+			c.Path = pickOne(s, []string{"$this", "%context", "%context.take(1)", "$this.tail()", typ, "$this is " + typ, "%context.skip(0)"})
 		}
 	}
 	return c
@@ -739,8 +745,10 @@ func c04RunKeep(ctx *Ctx, c c04KeepCase) {
 		return
 	}
 	ids := make([]string, len(first))
+	rend := make([]string, len(first)) // renderings only: synthesised items (reference strings) are new objects every time
 	for i, x := range first {
 		ids[i] = itemID(x) + "|" + renderItem(x)
+		rend[i] = renderItem(x)
 	}
 	g = guard(func() {
 		second, err2 = e.Evaluate([]fhir.Resource{rb.(fhir.Resource)})
@@ -761,15 +769,173 @@ func c04RunKeep(ctx *Ctx, c c04KeepCase) {
 			return
 		}
 	}
+	// the caller owns what it was given: it may overwrite the first collection; a later
+	// evaluation must not see that
+	for i := range first {
+		first[i] = system.String("SCRIBBLED-BY-THE-CALLER")
+	}
+	for i := range second {
+		second[i] = system.String("SCRIBBLED-BY-THE-CALLER")
+	}
+	var fourth system.Collection
+	var err4 error
+	if g := guard(func() { fourth, err4 = e.Evaluate([]fhir.Resource{ra.(fhir.Resource)}) }); g.Panic == "" {
+		if err4 != nil || len(fourth) != len(ids) {
+			ctx.Fail("retained result: after the caller overwrote the collections it had been given, evaluating again gives another result", fmt.Sprintf("%s: %d items then %d (err %v)", c.Path, len(ids), len(fourth), err4))
+			return
+		}
+		for i, x := range fourth {
+			if got := renderItem(x); got != rend[i] {
+				ctx.Fail("retained result: after the caller overwrote the collections it had been given, evaluating again gives another result", fmt.Sprintf("%s: item %d is %s, was %s", c.Path, i, clip(got, 120), clip(rend[i], 120)))
+				return
+			}
+		}
+	}
 	if err3 != nil || len(third) != len(ids) {
 		ctx.Fail("retained result: evaluating again on the first resource gives another result", fmt.Sprintf("%s: %d items then %d (err %v)", c.Path, len(ids), len(third), err3))
 		return
 	}
 	for i, x := range third {
-		if renderItem(x) != renderItem(first[i]) {
+		if renderItem(x) != rend[i] {
 			ctx.Fail("retained result: evaluating again on the first resource gives another result", fmt.Sprintf("%s: item %d", c.Path, i))
 			return
 		}
+	}
+}
+
+// --- (f) the result follows the input when the caller edits it in place --------------------
+
+// One compiled expression is evaluated on a resource; the caller then edits the resource in
+// place - the value of every primitive element, and the content of every Any-packed contained
+// resource re-packed into the same Any - and evaluates again.  The second result must be what
+// a freshly compiled expression gives on a deep copy of the edited resource: nothing learnt
+// about the first state of the input may survive (memoised conversions, unpacked copies).
+type c04EditCase struct {
+	Res  string `json:"res"`
+	Path string `json:"path"`
+}
+
+func c04GenEdit(s Src) c04EditCase {
+	typ := allResTypes[s.Intn(len(allResTypes))].Name
+	if s.Prob(30) {
+		typ = "Patient"
+	}
+	o := defaultGen
+	o.Contained = s.Prob(60)
+	a := genResource(s, typ, o)
+	c := c04EditCase{Res: resToText(a), Path: typ}
+	if root, _, err := buildTree(a); err == nil {
+		var paths []string
+		root.walk(func(n *Node) {
+			if pn := n.pathNames(); len(pn) > 0 && len(pn) <= 5 && (n.Prim || n.ViaAny || s.Prob(20)) {
+				paths = append(paths, typ+"."+strings.Join(pn, "."))
+			}
+		})
+		if len(paths) > 0 {
+			c.Path = pickOne(s, paths) + pickOne(s, []string{".toString()", ".toString()", "", ".select($this.toString())", ".select($this = $this)", ".where($this.toString().exists())", ".count()"})
+		}
+	}
+	return c
+}
+
+// c04EditInPlace changes the value of every primitive element below m (same messages, new
+// values) and re-packs every Any with its edited content.
+func c04EditInPlace(m protoreflect.Message, depth int) {
+	if depth > 40 {
+		return
+	}
+	if a, ok := m.Interface().(*anypb.Any); ok {
+		if inner, err := a.UnmarshalNew(); err == nil {
+			c04EditInPlace(inner.ProtoReflect(), depth+1)
+			_ = a.MarshalFrom(inner)
+		}
+		return
+	}
+	md := m.Descriptor()
+	if isPrimitiveMD(md) {
+		if vf := md.Fields().ByName("value"); vf != nil && m.Has(vf) {
+			switch vf.Kind() {
+			case protoreflect.StringKind:
+				v := m.Get(vf).String()
+				if md.Name() == "Decimal" {
+					if !strings.Contains(v, ".") {
+						v += ".0"
+					}
+					m.Set(vf, protoreflect.ValueOfString(v+"7"))
+				} else {
+					m.Set(vf, protoreflect.ValueOfString(v+"x"))
+				}
+			case protoreflect.BoolKind:
+				m.Set(vf, protoreflect.ValueOfBool(!m.Get(vf).Bool()))
+			case protoreflect.Int32Kind, protoreflect.Sint32Kind:
+				if v := m.Get(vf).Int(); v < 1000000 {
+					m.Set(vf, protoreflect.ValueOfInt32(int32(v)+1))
+				}
+			case protoreflect.Uint32Kind:
+				if v := m.Get(vf).Uint(); v < 1000000 {
+					m.Set(vf, protoreflect.ValueOfUint32(uint32(v)+1))
+				}
+			}
+		}
+		if vf := md.Fields().ByName("value_us"); vf != nil && m.Has(vf) && md.Name() != "Time" {
+			if v := m.Get(vf).Int(); v > -50e15 && v < 200e15 {
+				m.Set(vf, protoreflect.ValueOfInt64(v+86400e6*400))
+			}
+		}
+	}
+	m.Range(func(fd protoreflect.FieldDescriptor, v protoreflect.Value) bool {
+		if fd.Message() == nil || fd.IsMap() {
+			return true
+		}
+		if fd.IsList() {
+			for i := 0; i < v.List().Len(); i++ {
+				c04EditInPlace(v.List().Get(i).Message(), depth+1)
+			}
+			return true
+		}
+		c04EditInPlace(v.Message(), depth+1)
+		return true
+	})
+}
+
+func c04RunEdit(ctx *Ctx, c c04EditCase) {
+	ra, err := resFromText(c.Res)
+	if err != nil {
+		ctx.Fail("harness: cannot decode case", err.Error())
+		return
+	}
+	if strings.Contains(c.Path, ".div") {
+		return
+	}
+	e, cerr := fhirpath.Compile(c.Path)
+	if cerr != nil {
+		ctx.Eval(c.Res+c.Path, false, "stage:in-place-edits", "outcome:compile-error")
+		return
+	}
+	var first, second, fresh system.Collection
+	var err1, err2, err3 error
+	g := guard(func() { first, err1 = e.Evaluate([]fhir.Resource{ra.(fhir.Resource)}) })
+	if g.Panic != "" {
+		return // C01
+	}
+	before := renderColl(first)
+	c04EditInPlace(ra.ProtoReflect(), 0)
+	cp := proto.Clone(ra)
+	g = guard(func() {
+		second, err2 = e.Evaluate([]fhir.Resource{ra.(fhir.Resource)})
+		if e2, cerr2 := fhirpath.Compile(c.Path + " "); cerr2 == nil { // another source text: another compilation
+			fresh, err3 = e2.Evaluate([]fhir.Resource{cp.(fhir.Resource)})
+		} else {
+			err3 = cerr2
+		}
+	})
+	if g.Panic != "" {
+		return
+	}
+	after, want := renderColl(second), renderColl(fresh)
+	ctx.Eval(c.Res+c.Path, err1 == nil && before != want, "stage:in-place-edits", fmt.Sprintf("edit-visible:%v", before != want), fmt.Sprintf("via-contained:%v", strings.Contains(c.Path, ".contained")))
+	if (err2 != nil) != (err3 != nil) || (err2 == nil && after != want) {
+		ctx.Fail("in-place edit: after the caller edited the resource, the compiled expression does not give what a fresh compilation gives on a copy of the edited resource", fmt.Sprintf("%s\nbefore the edit: %s\nafter the edit : %s (err %v)\nfresh on a copy : %s (err %v)", c.Path, clip(before, 300), clip(after, 300), err2, clip(want, 300), err3))
 	}
 }
 
@@ -777,12 +943,13 @@ var _ = proto.Equal
 
 func TestC04(t *testing.T) {
 	r := newRec("C04",
-		"(concurrent) a history is 1..6 compiled expressions (a pool of read-heavy programs using where/select/exists/all/iif/now()/variables/a custom function, plus generated programs), the fixture Patient + 0..2 generated resources shared by all goroutines, 2..16 goroutines each with 1..20 (expression, resource subset, option set) evaluations (60% of them the same expression on the same resource), a drawn start order behind a barrier, GOMAXPROCS ∈ {1,2,4,16} and 0..3 goroutines calling Compile/patch.Compile with AddFunction/WithExperimentalFuncs meanwhile; run in a -race binary; oracle: race detector silent, every concurrent result (rendering and element pointers) equals the same evaluation performed alone beforehand, shared resources unchanged.  (time) instants around epoch/leap day/DST changes/year 9999 in 13 zones: now()/today()/timeOfDay() under OverrideTime, one instant per evaluation spanning ≥ 6 ms with and without override, repeatability.  (tz-matrix) a fixed battery without OverrideTime in child processes with TZ ∈ {UTC, Asia/Kolkata, America/St_Johns, Pacific/Chatham} must render identically.  (compile-isolation) generated histories of 1..10 Compile calls over {fresh/duplicate/built-in/variadic/non-function AddFunction, WithExperimentalFuncs, AddFunction combined with WithExperimentalFuncs in either order, Permissive, patch.Compile, plain} with the invariant after every step: base table snapshot unchanged, no registered name resolves elsewhere, join only with the experimental option, built-in battery unchanged.  (retained-results) one compiled path (a path of a generated resource A, optionally followed by where/tail/select/take/children) evaluated on A, then on a second resource B of the same type, then on A again: the collection returned first still holds A's elements and the third result equals the first.  non-trivial = ≥ 2 evaluations of one (expression, resources, options) triple in different goroutines; a history with a registration followed by a plain Compile; distinct = FNV-64 of the history",
+		"(concurrent) a history is 1..6 compiled expressions (a pool of read-heavy programs using where/select/exists/all/iif/now()/variables/a custom function, plus generated programs), the fixture Patient + 0..2 generated resources shared by all goroutines, 2..16 goroutines each with 1..20 (expression, resource subset, option set) evaluations (60% of them the same expression on the same resource), a drawn start order behind a barrier, GOMAXPROCS ∈ {1,2,4,16} and 0..3 goroutines calling Compile/patch.Compile with AddFunction/WithExperimentalFuncs meanwhile; run in a -race binary; oracle: race detector silent, every concurrent result (rendering and element pointers) equals the same evaluation performed alone beforehand, shared resources unchanged.  (time) instants around epoch/leap day/DST changes/year 9999 in 13 zones: now()/today()/timeOfDay() under OverrideTime, one instant per evaluation spanning ≥ 6 ms with and without override, repeatability.  (tz-matrix) a fixed battery without OverrideTime in child processes with TZ ∈ {UTC, Asia/Kolkata, America/St_Johns, Pacific/Chatham} must render identically.  (compile-isolation) generated histories of 1..10 Compile calls over {fresh/duplicate/built-in/variadic/non-function AddFunction, WithExperimentalFuncs, AddFunction combined with WithExperimentalFuncs in either order, Permissive, patch.Compile, plain} with the invariant after every step: base table snapshot unchanged, no registered name resolves elsewhere, join only with the experimental option, built-in battery unchanged.  (retained-results) one compiled path (a path of a generated resource A, optionally followed by where/tail/select/take/children) evaluated on A, then on a second resource B of the same type, then on A again: the collection returned first still holds A's elements and the third result equals the first.; the caller then overwrites the collections it was given and evaluates once more (same result); programs include `is`/exists()/count() results and results cut from the root collection.  (in-place-edits) a compiled path with a conversion (toString(), = …) is evaluated, the caller changes the value of every primitive element in place and re-packs every contained resource into its own Any, and evaluates again: the result must equal a fresh compilation evaluated on a deep copy of the edited resource.  non-trivial = ≥ 2 evaluations of one (expression, resources, options) triple in different goroutines; a history with a registration followed by a plain Compile; distinct = FNV-64 of the history",
 		"the Go scheduler is not controlled: only interleavings that occur are judged; the race detector flags conflicting unsynchronised accesses that occur in a run even if they did not overlap in time")
 	runProperty(t, r,
 		Stage[c04TZCase]{Name: "tz-matrix", Enum: c04EnumTZ, Run: c04RunTZ},
 		Stage[c04IsoCase]{Name: "compile-isolation", Gen: c04GenIso, Run: c04RunIso, N: pick(150, 3000)},
 		Stage[c04KeepCase]{Name: "retained-results", Gen: c04GenKeep, Run: c04RunKeep, N: pick(400, 8000)},
+		Stage[c04EditCase]{Name: "in-place-edits", Gen: c04GenEdit, Run: c04RunEdit, N: pick(400, 8000)},
 		Stage[c04TimeCase]{Name: "time", Gen: c04GenTime, Run: c04RunTime, N: pick(60, 1500)},
 		Stage[c04ConcCase]{Name: "concurrent", Gen: c04GenConc, Run: c04RunConc, N: pick(80, 2500)},
 	)
